@@ -123,6 +123,9 @@ class Escape:
         self._callsites: Optional[Dict[str, List[Tuple[Func, ast.Call]]]] = None
         self._gen_nonneg: Dict[str, bool] = {}
         self._scanner_ok: Optional[bool] = None
+        self._scanner_state: Optional[str] = None  # 'ok' / 'violated' / 'undecided'
+        self._unknown_hit = False  # set while a sign fact is evaluated that ran into an undecided callee summary
+        self.uncertain_sites: Set[str] = set()
         self.reach: Optional[Set[str]] = None
 
     # ------------------------------------------------------------------ public
@@ -544,11 +547,17 @@ class Escape:
             if (whs or "").endswith("SEEK_CUR") and self._giveback(f, st, recv, off):
                 return set()
             return self._prim(f, "OSError", c, "relative seek " + src(c)[:60], st)
+        self._unknown_hit = False
         if self.nonneg(f, off, st):
             return set()
+        unknown = self._unknown_hit
         out = self._prim(f, "ValueError", c, "absolute seek " + src(c)[:60], st)
         if kind != "bytesio":
             out |= self._prim(f, "OSError", c, "absolute seek " + src(c)[:60], st)
+        if unknown:
+            # the sign of the offset hinges on the summary of a callee whose shape the owning rule could not recognise
+            # (undecided there): nothing is known here either - recorded, reported as undecided by check_escape
+            self.uncertain_sites |= {e.site for e in out}
         return out
 
     def _giveback(self, f: Func, st: ast.AST, recv: ast.AST, off: ast.AST) -> bool:
@@ -1024,6 +1033,8 @@ class Escape:
 
     def _yields_nonneg(self, g: Func, depth: int) -> bool:
         if g.fq in self._gen_nonneg:
+            if g.fq in getattr(self, "_gen_unknown", ()):
+                self._unknown_hit = True
             return self._gen_nonneg[g.fq]
         self._gen_nonneg[g.fq] = True  # optimistic for recursion
         ys = [n for n in body_walk(g.node) if isinstance(n, ast.Yield)]
@@ -1037,6 +1048,11 @@ class Escape:
             ok = self.scanner_ok()
             if ok:
                 self.facts_used.append("scanner summary: iter_find_needle yields offsets >= start (C15.R1/R3 discharged on this tree)")
+            elif self._scanner_state == "undecided":
+                if not hasattr(self, "_gen_unknown"):
+                    self._gen_unknown = set()
+                self._gen_unknown.add(g.fq)
+                self._unknown_hit = True
         self._gen_nonneg[g.fq] = ok
         return ok
 
@@ -1045,9 +1061,12 @@ class Escape:
             try:
                 from rules import c15
 
-                self._scanner_ok = c15.scanner_facts_hold(self.ctx)
+                r = c15.scanner_facts_hold(self.ctx)
+                self._scanner_state = "undecided" if r is None else "ok" if r else "violated"
+                self._scanner_ok = bool(r)
             except Exception:
                 self._scanner_ok = False
+                self._scanner_state = "violated"
         return self._scanner_ok
 
     def _for_target_nonneg(self, f: Func, st: ast.For, name: str, depth: int) -> bool:
@@ -1869,10 +1888,19 @@ def check_escape(ctx, rule: str, entries: List[str], allowed: Set[str], esc: Opt
         for e in sorted(bad, key=lambda e: (len(e.path), e.site)):
             by_site.setdefault((e.cls, e.site), e)
         ok_classes = sorted({e.cls for e in effs if e not in bad})
+        # a site is *uncertain* when the only reason it is charged is a callee summary that its owning rule left undecided
+        # (the callee was re-implemented in a shape that rule does not recognise): reported as undecided, not as a violation
+        certain = [e for e in bad if e.site not in esc.uncertain_sites]
         ctx.ob(rule, "ESC", f, "escape set", not bad,
-               f"may-raise set of {fq}: allowed classes reached {ok_classes}; " + ("no other class can escape" if not bad else f"{len(by_site)} primitive site(s) can raise a class outside {sorted(allowed)}"), f.node)
+               f"may-raise set of {fq}: allowed classes reached {ok_classes}; " + ("no other class can escape" if not bad else f"{len(by_site)} primitive site(s) can raise a class outside {sorted(allowed)}")
+               + ("" if certain or not bad else " - all of them hinge on a callee summary that is undecided"), f.node, undecided=bool(bad) and not certain)
         for (cls, site), e in by_site.items():
             # one obligation per (entry, class, site): keyed by the site so that a second site is a new violation
+            if site in esc.uncertain_sites:
+                ctx.rep.ob(rule, "ESC", f"{site}::{cls}", False,
+                           f"UNDECIDED: {cls} from {fq} via " + " -> ".join(e.path + (site.split('::', 1)[1],)) + ": depends on a callee summary that is undecided",
+                           e.file, e.line, undecided=True)
+                continue
             ctx.rep.ob(rule, "ESC", f"{site}::{cls}", False,
                        f"{cls} can escape from {fq} via " + " -> ".join(e.path + (site.split('::', 1)[1],)), e.file, e.line)
     return esc
